@@ -192,7 +192,7 @@ def counting_discipline(chk, F, rule, cfg, fn, rows):
     chk.ob(rule, 'next_responder is called from exactly one site (eval_dyn)', len(callers) == 1 and callers[0][0].endswith('::eval_dyn'), config=cfg, fn=nr,
            site='callers', what='callers of next_responder', found=callers, expected=['eval::DynCtx::eval_dyn'])
     acc = L.field_accesses(F, 'counter::CallCounter', 'actual_count')
-    users = L.attributed(F, acc)
+    users = [u for u in L.attributed(F, acc) if not re.search(r' as core::fmt::Debug>::fmt$', u)]      # (a Debug impl only renders the counter)
     ok = set(users) <= {'counter::CallCounter::fetch_add', 'counter::CallCounter::verify', 'counter::CallCountExpectation::into_counter', 'assemble::MockAssembler::new_call_pattern'}     # (the last two: where a pattern's counter is built)
     chk.ob(rule, 'actual_count is only touched by construction, the bump and verification', ok, config=cfg, site='field:actual_count', what='users of actual_count',
            found=users, expected=['into_counter', 'fetch_add', 'verify'])
